@@ -4,7 +4,7 @@ from ..drivers import container
 ALL = ["C03", "C04", "C09", "C10", "C11", "C07"]
 
 
-def plan_container(tier, seed, oracles, faults=0.0):
+def plan_container(tier, seed, oracles, faults=0.08):
     orc = list(oracles)
     sh = []
     if tier == "quick":
@@ -15,6 +15,8 @@ def plan_container(tier, seed, oracles, faults=0.0):
         sh.append({"kind": "removal-matrix", "oracles": orc, "reps": 1})
         for s in range(3):
             sh.append({"kind": "random", "shard": s, "n": 50, "oracles": orc, "faults": faults})
+        sh.append({"kind": "random", "shard": 7, "n": 30, "oracles": orc, "faults": faults, "env": {"TZ": "Europe/Rome"}})
+        sh.append({"kind": "sized", "oracles": orc, "variants": 2})
     else:
         for n in (1, 2, 3):
             for f in range(16):
@@ -25,6 +27,9 @@ def plan_container(tier, seed, oracles, faults=0.0):
         for s in range(12):
             sh.append({"kind": "random", "shard": s, "budget_s": 150, "oracles": orc, "faults": faults,
                        "capture_every": 40 if s == 0 else None})
+        for i, tz in enumerate(["Europe/Rome", "America/Sao_Paulo", "Australia/Lord_Howe"]):
+            sh.append({"kind": "random", "shard": 300 + i, "budget_s": 60, "oracles": orc, "faults": faults, "env": {"TZ": tz}})
+        sh.append({"kind": "sized", "oracles": orc, "variants": 4, "more": True})
     return sh
 
 
